@@ -25,7 +25,7 @@ LINE_TYPE_W = [('float', 8), ('int', 2), ('bool', 3), ('str', 2), ('enum', 1)]
 
 FLOATS = [0.0, 1.0, 2.5, 10.25, 1500.0, 0.005, 1.005, 2.675, -3.5, 99999.99, 0.125, 1500.01, 7.0]
 INTS = [0, 1, 2, 3, 5, 10, -1, 1500]
-STRS = ['abc', 'John Q', 'x', '', 'a=b; c', 'Zoe~', '(paren', 'back\\slash', '1040']
+STRS = ['abc', 'John Q', 'x', '', 'a=b; c', 'Zoe~', '(paren', 'back\\slash', '1040', 'Where St #12', '#4B', 'x ;y', '; z']
 REGEX_OK = ['ab1', 'cc9', 'ba0']
 SSNS = [('123-45-6789', '123456789'), ('987654321', '987654321'), ('000-00-0001', '000000001')]
 TRUE_TXT = ['yes', 'y', 'true', '1', 'on', 'Yes', 'TRUE']
@@ -451,6 +451,13 @@ def gen_case(seed, force_faults=None, clean=None):
             for ispec in fs['inputs']:
                 txt, typed = render_value(r_p, ispec)
                 persona[qual(fs, inst, ispec['name'])] = {'text': txt, 'typed': typed, 'invalid': False}
+    # stray sections: an instanced form's inputs also given under the un-instanced section name (nobody reads those)
+    if r_p.chance(0.15):
+        for fs in world['forms']:
+            if fs['multi']:
+                for ispec in fs['inputs']:
+                    txt, typed = render_value(r_p, ispec)
+                    persona[qual(fs, None, ispec['name'])] = {'text': txt, 'typed': typed, 'invalid': False, 'stray': True}
     if 'corrupt' in faults and persona:
         r_c = rng.sub('corrupt')
         names = sorted(persona)
@@ -468,7 +475,7 @@ def gen_case(seed, force_faults=None, clean=None):
     else:
         p_present = r_s.pick([1.0, 1.0, 0.8, 0.5, 0.0])
     names = sorted(persona)
-    infile = [n for n in names if persona[n]['invalid'] or r_s.chance(p_present)]
+    infile = [n for n in names if persona[n]['invalid'] or persona[n].get('stray') or r_s.chance(p_present)]
     if 'missing' in faults:
         prompt = r_s.chance(0.3)
     else:
